@@ -14,11 +14,12 @@ TRUSTED = cc.TRUSTED + [
     "Server.Close/Shutdown); in the thorough tier the same schedules run under the Go race detector",
 ]
 ASSUMPTIONS = ["backends return once their reader fails", "races on memory the model does not name and anything inside crypto/tls or net are not covered"]
-RULE = ("race detector: the harness built with -race replays several hundred conversations with early/late deliveries, chunked transfers, forced orders and the accept cases; any DATA RACE report in the package is a violation | accept probe with connections stuck in an implicit-TLS handshake: Close (racing with their registration) must end every one; | accept probe: every sequence up to the tier's length over {connection, temporary error, permanent error} x every pair of "
+RULE = ("accept2 probe: one server, two listeners with 0-2 idle connections each, a listener whose Close reports an error, every pair of endings: Close must end every connection and make every Serve return, a second ending reports closed | race detector: the harness built with -race replays several hundred conversations with early/late deliveries, chunked transfers, forced orders and the accept cases; any DATA RACE report in the package is a violation | accept probe with connections stuck in an implicit-TLS handshake: Close (racing with their registration) must end every one; | accept probe: every sequence up to the tier's length over {connection, temporary error, permanent error} x every pair of "
         "endings over {Close, Shutdown, none}; sched probe: every order of {aborted delivery completes, next transaction arrives, its delivery "
         "completes} for 2-3 overlapping chunked transfers (SMTP and LMTP), plus Close / Shutdown / QUIT / disconnect while a delivery is in "
         "flight; goroutines left behind are counted after each case. non-trivial = at least one accept outcome or one gated delivery")
-THEOREMS = ["C20_second_close", "C20_temp_errors", "own_verdict_all_schedules", "never_blocked_step", "pinned_tree_counterexample", "pinned_tree_leak"]
+THEOREMS = ["C20_second_close", "C20_temp_errors", "own_verdict_all_schedules", "never_blocked_step", "pinned_tree_counterexample", "pinned_tree_leak",
+            "C20_close_ends_everything"]
 nontrivial = lambda case, ans: True
 signature = lambda case, ans: case.split("\t")[0] + ":" + (ans.split(";")[0] if case.startswith("accept") else ans.split("\t")[-1][:20])
 mutate = lambda case, rng: []
@@ -100,7 +101,18 @@ def groups(tier, rng):
             for e1, e2 in (("close", "none"), ("close", "close"), ("close", "shutdown")):
                 for _ in range(1 if tier == "quick" else 5):
                     hang.append("accept\t%s\t%s,%s" % (",".join(outs), e1, e2))
-    return [Group("accept/outcome-sequences", acc, exhaustive=(tier == "thorough"), project=project, theorems=THEOREMS, monitor=False),
+    # two listeners on one server, idle connections on both, a listener whose Close reports an error: Close must still close every
+    # listener and every connection (and report the error); judged by the accept2 judge (open = 0, every Serve returned, second ending
+    # "closed", nothing left behind) and compared with the lifecycle model
+    two = []
+    for nA, nB in ((0, 0), (1, 0), (0, 2), (1, 1), (2, 1)):
+        for eA, eB in ((0, 0), (1, 0), (0, 1), (1, 1)):
+            for ends in ("close,none", "close,close", "close,shutdown", "shutdown,close", "shutdown,none"):
+                if tier == "quick" and ends.startswith("shutdown") and (nA + nB) > 1:
+                    continue
+                two.append("accept2\t%d:%d\t%d:%d\t%s" % (nA, eA, nB, eB, ends))
+    return [Group("accept2/two-listeners-close-error", two, project=project, theorems=THEOREMS),
+            Group("accept/outcome-sequences", acc, exhaustive=(tier == "thorough"), project=project, theorems=THEOREMS, monitor=False),
             Group("accept/hanging-connections", hang, project=project, theorems=THEOREMS, monitor=False),
             Group("sched/delivery-orders", sched_cases(tier, rng), project=project, theorems=THEOREMS, monitor=False)]
 
